@@ -69,4 +69,39 @@ theorem C11_fresh_added (dst : List (Val × Val)) (k v : Val) (h : (getE dst k).
 -- non-vacuity / test: two books, a list each
 example : (match reduce [[(1, .list [.int 1])], [(1, .list [.int 2, .int 3])]] with | .ok m => m.length | _ => 0) = 1 := by decide
 
+/-! ### sheet specifiers -/
+
+open TableauVerif.Model.Sheets in
+/-- **C11_every_specified_pair_imported**: every (book, sheet) pair a specifier stands for is among the importers,
+whatever the other specifiers name — in particular a second specifier naming another sheet of an already matched
+book is not dropped -/
+theorem C11_every_specified_pair_imported (n : Nat) (primary : String) (specs : List Specifier) (s : Specifier)
+    (hs : s ∈ specs) (p : Nat × String) (hp : p ∈ s.pairs n primary) : p ∈ importers n primary specs := by
+  simp only [importers, List.mem_flatMap]
+  exact ⟨s, hs, hp⟩
+
+open TableauVerif.Model.Sheets in
+/-- **C11_importers_nothing_else**: … and nothing else is imported, each pair as often as it is specified -/
+theorem C11_importers_nothing_else (n : Nat) (primary : String) (specs : List Specifier) :
+    (importers n primary specs).length = (specs.map (fun s => (s.pairs n primary).length)).sum ∧
+    ∀ p ∈ importers n primary specs, ∃ s ∈ specs, p ∈ s.pairs n primary := by
+  refine ⟨?_, fun p hp => ?_⟩
+  · induction specs with
+    | nil => rfl
+    | cons s rest ih => simp [importers, List.flatMap_cons] at ih ⊢
+  · simp only [importers, List.mem_flatMap] at hp
+    exact hp
+
+open TableauVerif.Model.Sheets in
+/-- **C11_scatter_one_file_per_importer**: Scatter writes the primary's file and one file per importer, each with
+exactly the rows of its own sheet -/
+theorem C11_scatter_one_file_per_importer {α : Type} (main : List α) (books : List (List (String × List α)))
+    (primary : String) (specs : List Specifier) :
+    (scatteredFiles main books primary specs).length = 1 + (importers books.length primary specs).length ∧
+    ∀ f ∈ (scatteredFiles main books primary specs).tail, ∃ i, f.1 = some i ∧ f.2.2 = sheetRows (books.getD i []) f.2.1 := by
+  refine ⟨by simp [scatteredFiles]; omega, fun f hf => ?_⟩
+  simp only [scatteredFiles, List.tail_cons, List.mem_map] at hf
+  obtain ⟨p, _, rfl⟩ := hf
+  exact ⟨p.1, rfl, rfl⟩
+
 end TableauVerif.Props.C11
